@@ -137,4 +137,52 @@ theorem length_diffs (l : List ℝ) : (diffs l).length = l.length - 1 := by
     | nil => rfl
     | cons b l => simp only [diffs, List.length_cons] at ih ⊢; omega
 
+theorem length_consHead {β : Type} (x : β) {G : List (List β)} (hG : G ≠ []) :
+    (consHead x G).length = G.length := by
+  cases G with
+  | nil => exact absurd rfl hG
+  | cons g gs => simp [consHead]
+
+/-- one section more than there are `v` marks -/
+theorem length_splitAtMarks {β : Type} (v : Int) : ∀ (ms : List Int) (vals : List β),
+    (splitAtMarks v ms vals).length = ms.countP (fun m => decide (m = v)) + 1
+  | [], _ => by simp [splitAtMarks]
+  | m :: ms, [] => by
+      have ih := length_splitAtMarks v ms ([] : List β)
+      unfold splitAtMarks
+      rw [List.countP_cons]
+      by_cases hm : m = v <;> simp [hm, ih]
+  | m :: ms, x :: xs => by
+      have ih := length_splitAtMarks v ms xs
+      have hne := splitAtMarks_ne_nil v ms xs
+      unfold splitAtMarks
+      rw [List.countP_cons]
+      by_cases hm : m = v <;> simp [hm, ih, length_consHead x hne]
+
+theorem zipWith_dropLast_left {β γ δ : Type} (f : β → γ → δ) : ∀ (l : List β) (r : List γ),
+    r.length + 1 ≤ l.length → List.zipWith f l.dropLast r = List.zipWith f l r
+  | _, [], _ => by simp
+  | [], b :: r, h => by simp at h
+  | [a], b :: r, h => by simp at h
+  | a :: c :: l, b :: r, h => by
+      rw [List.dropLast_cons_cons, List.zipWith_cons_cons, List.zipWith_cons_cons,
+        zipWith_dropLast_left f (c :: l) r (by simpa using h)]
+
+theorem zipWith_replicate_left {β γ δ : Type} (f : β → γ → δ) (c : β) : ∀ (m : ℕ) (r : List γ),
+    r.length ≤ m → List.zipWith f (List.replicate m c) r = r.map (f c)
+  | _, [], _ => by simp
+  | 0, b :: r, h => by simp at h
+  | m + 1, b :: r, h => by
+      rw [List.replicate_succ, List.zipWith_cons_cons, List.map_cons,
+        zipWith_replicate_left f c m r (by simpa using h)]
+
+/-- the sorted events contain exactly `coal.length` coalescent marks -/
+theorem count_coal_marks {samp coal grid : List ℝ} {ev : List (Ev ℝ)} (hperm : ev.Perm (evs samp coal grid)) :
+    (marks ev).countP (fun m => decide (m = -1)) = coal.length := by
+  unfold marks
+  rw [List.countP_map, hperm.countP_eq, List.countP_eq_length_filter]
+  have := filter_coal_evs samp coal grid
+  simp only [Function.comp_def] at this ⊢
+  rw [this, List.length_map]
+
 end TT.C20
